@@ -9,6 +9,7 @@ request:  g.ops <op,op,…> R <root> F <lo-hi,lo-hi,…|-> { N <id> <size> <byte
 response: one token per op, then `|` and the final state; `trap` (alone) if any op panics.
 -/
 import FontVerif.Model.Graph
+import FontVerif.Drv.TableWriter
 namespace FontVerif.Drv.C05
 open FontVerif FontVerif.Graph
 
@@ -227,6 +228,6 @@ def handle (cmd : String) (args : List String) : Option String :=
     match count.toNat?, size.toNat? with
     | some c, some s => some (toString (promotionKey c s))
     | _, _ => none
-  | _, _ => none
+  | _, _ => FontVerif.Drv.TableWriter.handle cmd args  -- tw.*: the C04 ⇄ C05 bridge (Drv/TableWriter.lean)
 
 end FontVerif.Drv.C05
